@@ -417,6 +417,7 @@ class C05Check:
             signame = ch.choose([None, None, "SIGINT", "SIGTERM"], "mp.signal")
             sig_steps = ch.choose([ch.pick(60, "mp.sigsteps.a"), ch.pick(1500, "mp.sigsteps.b")], "mp.sigsteps")
             handlers = {}
+            sig_second = ch.choose([None, None, ch.pick(60, "mp.sigsecond.d")], "mp.sigsecond")
             sigstate = {"delivered": False, "too_early": False}
 
             class SignalProxy:
@@ -454,8 +455,10 @@ class C05Check:
                     hm.run_message = orig_rm
                     hm.signal = orig_signal
 
-            out = R.run_under_sim(ch, main, solver=solver, plan=plan, unknown_rate=1.0, max_steps=40000,
-                                  interrupt=(sig_steps, deliver) if signame else None)
+            irq = None
+            if signame:
+                irq = [(sig_steps, deliver)] + ([(sig_steps + sig_second, deliver)] if sig_second is not None else [])
+            out = R.run_under_sim(ch, main, solver=solver, plan=plan, unknown_rate=1.0, max_steps=40000, interrupt=irq)
         finally:
             shutil.rmtree(root, ignore_errors=True)
         vio = []
